@@ -306,6 +306,17 @@ pub fn generate_c03(g: &mut Gen, thorough: bool) {
         }
     }
     stack_led_macros(g, thorough);
+    // a step carrying `inv` is that step with its two directions exchanged - for every kind of step
+    {
+        let data = super::probe_data(2);
+        let mut defs: Vec<String> = leaf_cores().into_iter().filter(|c| c != "add2").collect();
+        for d in ["unitconvert xy_in=km xy_out=m", "unitconvert z_in=ft z_out=m xy_in=deg xy_out=rad", "adapt from=neuf_deg", "adapt to=enuf_deg from=neuf", "cart", "utm zone=32", "helmert x=1 rx=2 exact convention=position_vector"] {
+            defs.push(d.to_string());
+        }
+        for d in defs {
+            g.push(format!("S_INVMOD\t{}\t{}", crate::wire::escape(&d), data), "oracle-inv-modifier", true);
+        }
+    }
     // a step next to its own inverse is still two steps: both run (roundoff and all), both are counted
     let w = make_world(&mut g.rng, 2);
     let data = crate::wire::data_of(&[[0.1, 0.7, 1e-3, 2000.3], [1.0 / 3.0, -2.0 / 7.0, 1e15 + 0.5, 1e-9]]);
